@@ -283,6 +283,15 @@ pub fn gen_case(rng: &mut Rng) -> GradCase {
     };
     let nice_radius = |rng: &mut Rng, r: f32| -> f32 { if nice && rng.chance(0.7) { *rng.pick(&[1.0f32, 2., 4., 8., 16., 32., 64., 128., 256., 100., 10.]) } else { r } };
     let src = match rng.below(4) {
+        0 if rng.chance(0.08) => {
+            // a short gradient thousands of lengths away from the surface: t runs into the thousands
+            let len = rng.range(1.0, 3.0);
+            let ang = rng.range(0., 6.28);
+            let dist = rng.range(2500., 20000.) * if rng.chance(0.5) { -1. } else { 1. };
+            let start = ((wf / 2. + dist * ang.cos()) as f32, (hf / 2. + dist * ang.sin()) as f32);
+            let end = ((start.0 as f64 + len * ang.cos()) as f32, (start.1 as f64 + len * ang.sin()) as f32);
+            SrcSpec::Linear { stops, start, end, spread }
+        }
         0 => {
             let start = (pos(rng, wf), pos(rng, hf));
             let mut end = (pos(rng, wf), pos(rng, hf));
@@ -375,6 +384,20 @@ pub fn run_case(ctx: &Ctx, c: &GradCase, st: &mut Stats, want: bool) -> CaseOut 
         let other = c.t.then_scale(1.5, 0.75).then_translate(euclid::vec2(2.5, -1.0));
         let _ = probe_source(c.w, c.h, &other, &c.src, 1.0 - c.alpha * 0.5);
         st.add("cases_preceded_by_the_same_gradient_under_another_transform", 1);
+    }
+    // every fourth case is also observed through mask(): a mask of full coverage over the whole surface, SrcOver on
+    // transparent pixels, stores the source colour too (mask() takes no global alpha: compared at alpha 1)
+    if co.hash % 4 == 1 && c.w > 0 && c.h > 0 {
+        if let Ok(reference) = probe_source_checked(c.w, c.h, &c.t, &c.src, 1.0) {
+            let mut dt = DrawTarget::new(c.w, c.h);
+            dt.set_transform(&c.t);
+            let m = Mask { width: c.w, height: c.h, data: vec![255; (c.w * c.h) as usize] };
+            c.src.with(|s| dt.mask(s, 0, 0, &m));
+            st.add("cases_also_observed_through_mask", 1);
+            if let Some(k) = dt.get_data().iter().zip(reference.iter()).position(|(a, b)| a != b) {
+                co.viol("C12", format!("through mask() under the transform {} pixel ({},{}) = {} but a fill shows the gradient as {}", transform_str(&c.t), k as i32 % c.w, k as i32 / c.w, hex(dt.get_data()[k]), hex(reference[k])));
+            }
+        }
     }
     let pixels = match probe_source_checked(c.w, c.h, &c.t, &c.src, c.alpha) {
         Ok(p) => p,
